@@ -444,7 +444,7 @@ func (t *vC19) merge(list []vRS) {
 func init() {
 	vRegister(&vCheck{
 		ID: "C19", Level: "exploration", Engine: "domainmc",
-		Rule:        "Exhaustive lattice: ALL result lists of length 0..3 (quick) / 0..4 (thorough) over ids {1,2,3} x scores {-1, 0, 1, 2.5, +Inf, -Inf, NaN}: vector and text aggregation x {sum,max,mean} (each id once, value, best-first order for NaN-free inputs, independence of EVERY permutation of the input), LimitResults for k in -2..7; Autocut/AutocutResults for cutoff in -2..6 on EVERY score list of length 0..5 over the score alphabet (no panic, prefix, identity when disabled); fusion on ALL pairs of the 343 score maps over ids {1,2,3} x 6 scores (negative, zero, ties included) x {weighted sum (1,1),(0.3,0.7),(0,1), default, RRF K in {1,60}, max, min} (key set, values, inputs unchanged; RRF ties: any consistent ranking, origin 0 or 1); mergeResults/sortResultsByScore on all NaN-free lists of length 0..4. Non-trivial = distinct inputs with a repeated id (aggregate/merge), an actual truncation (limit/autocut), or two non-empty maps (fusion).",
+		Rule:        "Exhaustive lattice: ALL result lists of length 0..3 (quick) / 0..4 (thorough) over ids {1,2,3} x scores {-1, 0, 1, 2.5, +Inf, -Inf, NaN}: vector and text aggregation x {sum,max,mean} (each id once, value, best-first order for NaN-free inputs, independence of EVERY permutation of the input), LimitResults for k in -2..7; structured long lists (n distinct ids for every n in 1..130 and 200/257/300/513, with repeats of early / middle / late ids appended, prepended or inserted, plus reversed and rotated orders); Autocut/AutocutResults for cutoff in -2..6 on EVERY score list of length 0..5 over the score alphabet (no panic, prefix, identity when disabled); fusion on ALL pairs of the 343 score maps over ids {1,2,3} x 6 scores (negative, zero, ties included) x {weighted sum (1,1),(0.3,0.7),(0,1), default, RRF K in {1,60}, max, min} (key set, values, inputs unchanged; RRF ties: any consistent ranking, origin 0 or 1); mergeResults/sortResultsByScore on all NaN-free lists of length 0..4. Non-trivial = distinct inputs with a repeated id (aggregate/merge), an actual truncation (limit/autocut), or two non-empty maps (fusion).",
 		Assumptions: []string{"NaN propagation in aggregation is implementation-defined and not judged", "float tolerance 1e-5 relative"},
 		Shards: func(tier string) []vShard {
 			var sh []vShard
@@ -473,6 +473,48 @@ func init() {
 					c.Bound = fmt.Sprintf("all lists of length 0..%d", maxL)
 				}})
 			}
+			// long lists: n distinct ids followed / preceded / interleaved by repeats of early,
+			// middle and late ids, for every n in 1..130 and a few larger (growth of internal
+			// tables, pointer stability, counts per id)
+			sh = append(sh, vShard{Name: "aggregate-long", Run: func(c *vCtx) {
+				t := &vC19{c: c, cfgS: "aggregate-long"}
+				var ns []int
+				for n := 1; n <= 130; n++ {
+					ns = append(ns, n)
+				}
+				ns = append(ns, 200, 257, 300, 513)
+				for _, n := range ns {
+					base := make([]vRS, n)
+					for i := range base {
+						base[i] = vRS{uint32(i + 1), float32((i*7)%11) - 3}
+					}
+					reps := []int{1, 2, n/2 + 1, n}
+					var extra []vRS
+					for j, id := range reps {
+						extra = append(extra, vRS{uint32(id), float32(j) + 0.5}, vRS{uint32(id), -1.25})
+					}
+					lists := [][]vRS{
+						append(append([]vRS{}, base...), extra...),
+						append(append([]vRS{}, extra...), base...),
+					}
+					mid := append([]vRS{}, base[:n/2]...)
+					mid = append(mid, extra...)
+					mid = append(mid, base[n/2:]...)
+					lists = append(lists, mid)
+					for _, l := range lists {
+						rev := make([]int, len(l))
+						rot := make([]int, len(l))
+						for i := range l {
+							rev[i] = len(l) - 1 - i
+							rot[i] = (i + len(l)/3) % len(l)
+						}
+						t.aggregate(l, [][]int{rev, rot})
+						t.limit(l[:min(len(l), 6)])
+					}
+				}
+				c.Sample("ids 1..48 once each, then ids 1,2,25,48 twice more; reversed and rotated")
+				c.Bound = "n in 1..130, 200, 257, 300, 513"
+			}})
 			sh = append(sh, vShard{Name: "autocut", Run: func(c *vCtx) {
 				t := &vC19{c: c, cfgS: "autocut"}
 				for l := 0; l <= 5; l++ {
